@@ -1405,6 +1405,252 @@ def run_padmode(ctx, B):
             B.add('padmode name={} zero={}'.format(name if name else '""', int(const == 0)), cb)
 
 
+# --------------------------------------------------------------------------
+# F. size stratum and call histories (back-end behaviour depends on the size: FFTW switches
+#    algorithms and SIMD/alignment paths; plans are cached per operator instance)
+
+LARGE_SHAPES = [(100,), (128,), (400,), (1000,), (65, 33), (30, 100)]
+
+
+def _big(rng, shape, dt):
+    a = np.array([rng.randint(-8, 8) for _ in range(int(np.prod(shape)))], dtype=float).reshape(shape)
+    if np.dtype(dt).kind == 'c':
+        a = a + 1j * np.array([rng.randint(-8, 8) for _ in range(a.size)], dtype=float).reshape(shape)
+    return a.astype(dt)
+
+
+def _dft_ops(odl, sp, impl, inverse, hc=False, sign=None):
+    from odl.trafos import DiscreteFourierTransform as DFT, DiscreteFourierTransformInverse as IDFT
+    if hc:
+        return (IDFT(sp, halfcomplex=True, impl=impl) if inverse else DFT(sp, halfcomplex=True, impl=impl))
+    # range = domain so that out=x (aliased) is a legal call
+    return IDFT(sp, domain=sp, impl=impl) if inverse else DFT(sp, range=sp, impl=impl)
+
+
+def run_sizes(ctx, B):
+    odl = _odl()
+    from odl.trafos import FourierTransform as FT
+    rng = ctx.rng
+    shapes = LARGE_SHAPES if not ctx.quick else [(100,), (128,), (400,), (1000,), (65, 33), (30, 100)]
+    for impl in ('numpy', 'pyfftw'):
+        for shape in shapes:
+            n = int(np.prod(shape))
+            nd = len(shape)
+            spc = odl.uniform_discr([0] * nd, [1] * nd, shape, dtype='complex128')
+            spr = odl.uniform_discr([0] * nd, [1] * nd, shape, dtype='float64')
+            for inverse in (False, True):
+                refc = (np.fft.ifftn if inverse else np.fft.fftn)
+                for mode in ('oop', 'out', 'alias'):
+                    x = _big(rng, shape, 'complex128')
+                    desc = {'kind': 'size', 'impl': impl, 'shape': shape, 'inverse': inverse, 'mode': mode}
+                    ctx.case(('size', impl, shape, inverse, mode))
+                    ctx.hit('size/{}/{}'.format(impl, mode))
+                    ref = refc(x)
+                    tolv = 1e-12 * n * max(1.0, float(np.max(np.abs(ref))))
+
+                    def call():
+                        F = _dft_ops(odl, spc, impl, inverse)
+                        xe = spc.element(x.copy())
+                        if mode == 'oop':
+                            return F(xe).asarray(), xe.asarray()
+                        if mode == 'out':
+                            o = spc.element()
+                            o.asarray()[...] = np.nan
+                            F(xe, out=o)
+                            return o.asarray(), xe.asarray()
+                        F(xe, out=xe)
+                        return xe.asarray(), None
+                    res, e = safe(call)
+                    key = 'dft size impl={} {} {} shape={} complex'.format(
+                        impl, 'inverse' if inverse else 'forward', mode, shape)
+                    if e is not None or not np.max(np.abs(res[0] - ref)) <= tolv:
+                        viol(ctx, key, 'differs from numpy.fft on a copy: {!r}'.format(
+                            e if e is not None else 'max dev {:.3g} (tol {:.3g})'.format(
+                                float(np.max(np.abs(res[0] - ref))), tolv))[:300], desc)
+                    elif res[1] is not None and not np.array_equal(res[1], x):
+                        viol(ctx, key, 'input modified', desc)
+                    # (no model line: the model is size-independent and its naive sum is O(n^2 * n))
+            # half-complex forward and inverse (out-of-place and out given)
+            for mode in ('oop', 'out'):
+                x = _big(rng, shape, 'float64')
+                desc = {'kind': 'size', 'impl': impl, 'shape': shape, 'hc': True, 'mode': mode}
+                ctx.case(('size-hc', impl, shape, mode))
+                ctx.hit('size/{}/hc'.format(impl))
+                ref = np.fft.rfftn(x)
+                tolv = 1e-12 * n * max(1.0, float(np.max(np.abs(ref))))
+
+                def callhc():
+                    F = _dft_ops(odl, spr, impl, False, hc=True)
+                    Fi = _dft_ops(odl, spr, impl, True, hc=True)
+                    if mode == 'oop':
+                        y = F(spr.element(x.copy()))
+                        return y.asarray(), Fi(F.range.element(ref.copy())).asarray()
+                    o = F.range.element()
+                    F(spr.element(x.copy()), out=o)
+                    z = spr.element()
+                    Fi(F.range.element(ref.copy()), out=z)
+                    return o.asarray(), z.asarray()
+                res, e = safe(callhc)
+                key = 'dft size impl={} halfcomplex {} shape={}'.format(impl, mode, shape)
+                if e is not None or not np.max(np.abs(res[0] - ref)) <= tolv or \
+                        not np.max(np.abs(res[1] - x)) <= 1e-12 * n * 10:
+                    viol(ctx, key, 'forward/inverse differ from numpy.fft: {!r}'.format(
+                        e if e is not None else (float(np.max(np.abs(res[0] - ref))),
+                                                 float(np.max(np.abs(res[1] - x)))))[:300], desc)
+            # continuous FT, in-place pyfftw paths with a destroying planner
+            if impl == 'pyfftw':
+                for dt in ('complex128', 'float64'):
+                    sp = odl.uniform_discr([-1.0] * nd, [1.0] * nd, shape, dtype=dt)
+                    x = _big(rng, shape, dt) / 8
+                    desc = {'kind': 'size', 'impl': impl, 'shape': shape, 'dtype': dt, 'ft': True}
+                    for eff in ('estimate', 'measure'):
+                        ctx.case(('size-ft', shape, dt, eff))
+                        ctx.hit('size/pyfftw/ft-planning_effort=' + eff)
+
+                        def callft():
+                            Fn = FT(sp, halfcomplex=False, impl='numpy')
+                            Fp = FT(sp, halfcomplex=False, impl='pyfftw')
+                            yn = Fn(x).asarray()
+                            yp = Fp(sp.element(x.copy()), planning_effort=eff).asarray()
+                            zp = Fp.inverse(Fp.range.element(yn.copy()), planning_effort=eff).asarray()
+                            return yn, yp, zp
+                        res, e = safe(callft)
+                        key = 'ft size impl=pyfftw planning_effort={} dtype={} shape={}'.format(eff, dt, shape)
+                        if e is not None or not np.max(np.abs(res[1] - res[0])) <= 1e-12 * n * max(
+                                1.0, float(np.max(np.abs(res[0])))) or \
+                                not np.max(np.abs(res[2] - x)) <= 1e-12 * n * 10:
+                            viol(ctx, key, 'pyfftw differs from the numpy back-end / inverse does not recover '
+                                 'x: {!r}'.format(e if e is not None else (
+                                     float(np.max(np.abs(res[1] - res[0]))),
+                                     float(np.max(np.abs(res[2] - x)))))[:300], desc)
+
+
+HISTORY_ACTIONS = ('oop', 'out', 'alias', 'init', 'clear')
+
+
+def run_histories(ctx, B):
+    """Sequences of calls on ONE operator instance (cached FFTW plan, temporaries): each result is
+    compared with numpy.fft on a copy and with the same call on a fresh operator."""
+    odl = _odl()
+    from odl.trafos import FourierTransform as FT
+    rng = ctx.rng
+    base = [('oop', 'alias'), ('alias', 'oop'), ('oop', 'out'), ('out', 'alias'), ('alias', 'out'),
+            ('alias', 'alias'), ('init', 'alias'), ('init', 'oop', 'alias'), ('oop', 'init', 'alias'),
+            ('alias', 'init', 'oop'), ('oop', 'clear', 'alias'), ('out', 'alias', 'oop', 'alias')]
+    extra = [tuple(rng.choice(HISTORY_ACTIONS) for _ in range(6)) for _ in range(3 if ctx.quick else 20)]
+    for impl in ('pyfftw', 'numpy'):
+        for n in ((8, 128) if ctx.quick else (8, 128, 400)):
+            sp = odl.uniform_discr(0, 1, n, dtype='complex128')
+            for inverse in (False, True):
+                ref = np.fft.ifft if inverse else np.fft.fft
+                for seq in base + extra:
+                    if impl == 'numpy' and ('init' in seq or 'clear' in seq):
+                        continue
+                    ctx.case(('history', impl, n, inverse, seq))
+                    ctx.hit('history/dft/' + impl)
+                    if impl == 'pyfftw':
+                        # model: the executed plan always has the in-place-ness of the call
+                        cached = 'none'
+                        for act in seq:
+                            if act == 'clear':
+                                cached = 'none'
+                            elif act == 'init':
+                                cached = '0'
+                            else:
+                                ip = int(act == 'alias')
+
+                                def cbr(ans, ip=ip, seq=seq):
+                                    if ans != 'ok executed={}'.format(ip):
+                                        ctx.disagree({'kind': 'history', 'seq': list(seq)},
+                                                     'call in-place={}'.format(ip), ans)
+                                B.add('planreuse given={} inplace={}'.format(cached, ip), cbr)
+                                cached = str(ip)
+                    F, e = safe(lambda: _dft_ops(odl, sp, impl, inverse))
+                    desc = {'kind': 'history', 'impl': impl, 'n': n, 'inverse': inverse, 'seq': list(seq)}
+                    for step, act in enumerate(seq):
+                        x = _big(rng, (n,), 'complex128')
+
+                        def do(F=F, act=act, x=x):
+                            xe = sp.element(x.copy())
+                            if act == 'init':
+                                F.init_fftw_plan()
+                                return None
+                            if act == 'clear':
+                                F.clear_fftw_plan()
+                                return None
+                            if act == 'oop':
+                                return F(xe).asarray()
+                            if act == 'out':
+                                o = sp.element()
+                                F(xe, out=o)
+                                return o.asarray()
+                            F(xe, out=xe)
+                            return xe.asarray()
+                        got, e = safe(do)
+                        if e is None and got is None:
+                            continue
+                        r = ref(x)
+                        tolv = 1e-12 * n * max(1.0, float(np.max(np.abs(r))))
+                        if e is not None or not np.max(np.abs(got - r)) <= tolv:
+                            viol(ctx, 'dft history impl={} {} n={} seq={} step={} ({})'.format(
+                                impl, 'inverse' if inverse else 'forward', n, ','.join(seq), step, act),
+                                'call {} of the sequence differs from numpy.fft (and from a fresh operator): '
+                                '{!r}'.format(step, e if e is not None else 'max dev {:.3g}'.format(
+                                    float(np.max(np.abs(got - r)))))[:300], desc)
+                            break
+    # FourierTransform histories: planning effort variants, temporaries, plans
+    ft_seqs = [('est', 'meas'), ('meas', 'est'), ('tmp', 'meas', 'meas'), ('init', 'meas', 'out'),
+               ('meas', 'init', 'est'), ('tmp', 'init', 'out', 'clear', 'meas'), ('out', 'tmp', 'est')]
+    for dt in ('complex128', 'float64'):
+        for n in ((8, 128) if ctx.quick else (8, 128, 400)):
+            sp = odl.uniform_discr(-1.0, 1.0, n, dtype=dt)
+            for hc in ((False, True) if dt == 'float64' else (False,)):
+                Fn, _ = safe(lambda: FT(sp, halfcomplex=hc, impl='numpy'))
+                for seq in ft_seqs:
+                    ctx.case(('history-ft', dt, n, hc, seq))
+                    ctx.hit('history/ft/pyfftw')
+                    Fp, e = safe(lambda: FT(sp, halfcomplex=hc, impl='pyfftw'))
+                    desc = {'kind': 'history_ft', 'dtype': dt, 'n': n, 'hc': hc, 'seq': list(seq)}
+                    for step, act in enumerate(seq):
+                        x = _big(rng, (n,), dt) / 8
+
+                        def do(Fp=Fp, act=act, x=x):
+                            if act == 'tmp':
+                                Fp.create_temporaries()
+                                return None
+                            if act == 'init':
+                                Fp.init_fftw_plan()
+                                return None
+                            if act == 'clear':
+                                Fp.clear_fftw_plan()
+                                Fp.clear_temporaries()
+                                return None
+                            xe = sp.element(x.copy())
+                            if act == 'out':
+                                o = Fp.range.element()
+                                Fp(xe, out=o)
+                                y = o.asarray()
+                            else:
+                                y = Fp(xe, planning_effort='estimate' if act == 'est' else 'measure').asarray()
+                            z = Fp.inverse(Fp.range.element(y.copy()),
+                                           planning_effort='measure' if act == 'meas' else 'estimate').asarray()
+                            return y, z
+                        got, e = safe(do)
+                        if e is None and got is None:
+                            continue
+                        yn = Fn(x).asarray()
+                        tolv = 1e-12 * n * max(1.0, float(np.max(np.abs(yn))))
+                        if e is not None or not np.max(np.abs(got[0] - yn)) <= tolv or \
+                                not np.max(np.abs(got[1] - x)) <= 1e-12 * n * 10:
+                            viol(ctx, 'ft history impl=pyfftw dtype={} halfcomplex={} n={} seq={} step={} ({})'.format(
+                                dt, hc, n, ','.join(seq), step, act),
+                                'call {} differs from the numpy back-end / inverse does not recover x: '
+                                '{!r}'.format(step, e if e is not None else (
+                                    float(np.max(np.abs(got[0] - yn))), float(np.max(np.abs(got[1] - x)))))[:300],
+                                desc)
+                            break
+
+
 def run_rejections(ctx, B):
     """Constructor rejection paths (malformed stream): forward sign '+' with halfcomplex, and a
     non-shifted halved axis.  ORACLE: the documented rule; correspondence: the model's status."""
@@ -1448,6 +1694,9 @@ def run_rejections(ctx, B):
 
 EXPECTED_BRANCHES = [
     'ft/mixed shift + equal lengths', 'factors/mixed shift + equal lengths',
+    'size/numpy/oop', 'size/numpy/alias', 'size/pyfftw/oop', 'size/pyfftw/out', 'size/pyfftw/alias',
+    'size/pyfftw/hc', 'size/numpy/hc', 'size/pyfftw/ft-planning_effort=measure',
+    'history/dft/pyfftw', 'history/dft/numpy', 'history/ft/pyfftw',
     'factors_nd/mixed-shift-equal-lengths', 'factors_nd/mixed-shift', 'factors_nd/uniform-shift',
     'ft/numpy/c2c/mixedshift', 'ft/pyfftw/c2c/mixedshift', 'ft/numpy/r2c/mixedshift',
     'ft/pyfftw/r2c/mixedshift', 'ft/numpy/hc/allshift', 'ft/pyfftw/hc/allshift',
@@ -1494,6 +1743,8 @@ def run(ctx):
     run_gaussian(ctx)
     run_padmode(ctx, B)
     run_rejections(ctx, B)
+    run_sizes(ctx, B)
+    run_histories(ctx, B)
     run_wavelets(ctx, B)
     B.flush()
     # generator coverage that must not get lost silently
@@ -1527,6 +1778,8 @@ def search(ctx, broken):
         run_ft(ctx, B, oracle_only=True)
         run_backend_agreement(ctx)
         run_padmode(ctx, B)
+        run_sizes(ctx, B)
+        run_histories(ctx, B)
         B.lines, B.cbs = [], []
         run_wavelets(ctx, B, oracle_only=True)
     finally:
